@@ -88,6 +88,36 @@ def nullable_doc(r, first: bool = False) -> tuple[dict, dict]:
     return {"openapi": "3.0.3", "info": {"title": "N", "version": "1"}, "paths": paths, "components": {"schemas": schemas}}, plan
 
 
+def stream_plus_doc(r) -> dict:
+    """Operations whose PRIMARY response is streamed (event stream, NDJSON, binary) and that declare further 2xx responses - without
+    content, JSON (object, array of objects, integer) or text - and sometimes a `default`: the shape of F35 (repaired; the module used to
+    fail with `'return' with value in async generator`).  The other arms of such a method yield their value once / end the stream."""
+    schemas = {"Event": {"type": "object", "required": ["id"], "properties": {"id": {"type": "integer"}, "msg": {"type": "string"}}},
+               "Receipt": {"type": "object", "required": ["ref"], "properties": {"ref": {"type": "string"}, "n": {"type": "integer"}}}}
+    ev, rc = {"$ref": "#/components/schemas/Event"}, {"$ref": "#/components/schemas/Receipt"}
+    primaries = [{"text/event-stream": {"schema": ev}}, {"application/x-ndjson": {"schema": ev}},
+                 {"application/octet-stream": {"schema": {"type": "string", "format": "binary"}}}, {"text/event-stream": {"schema": {"type": "object"}}}]
+    secondaries = [None, {"application/json": {"schema": rc}}, {"application/json": {"schema": {"type": "array", "items": rc}}},
+                   {"application/json": {"schema": {"type": "integer"}}}, {"text/plain": {"schema": {"type": "string"}}}]
+    paths = {}
+    for i, prim in enumerate(primaries):
+        resp = {"200": {"description": "stream", "content": prim}}
+        codes = r.sample(["201", "202", "204", "206"], r.choice([1, 2, 2, 3]))
+        if i == 0:
+            codes = ["204"] + [c for c in codes if c != "204"][:1]        # the recorded witness: an event stream next to a 204
+        for c in codes:
+            content = None if c == "204" else r.choice(secondaries)
+            resp[c] = {"description": f"status {c}"} if content is None else {"description": f"status {c}", "content": content}
+        if r.random() < 0.4:
+            resp["default"] = r.choice([{"description": "unexpected"}, {"description": "unexpected", "content": {"application/json": {"schema": rc}}}])
+        if r.random() < 0.3:
+            resp["404"] = {"description": "missing"}
+        if r.random() < 0.5:
+            resp = dict(sorted(resp.items(), key=lambda kv: r.random()))
+        paths[f"/s{i}"] = {"get": {"operationId": f"watchS{i}", "tags": [r.choice(["feeds", "misc"])], "responses": resp}}
+    return {"openapi": "3.0.3", "info": {"title": "S", "version": "1"}, "paths": paths, "components": {"schemas": schemas}}
+
+
 def build_cases(ctx, stream: str, n: int) -> list[dict]:
     cases = []
     for i in range(n):
@@ -95,7 +125,7 @@ def build_cases(ctx, stream: str, n: int) -> list[dict]:
         nplan = None
         if stream == "witness":
             o = None
-        elif stream == "nullable":
+        elif stream in ("nullable", "stream-plus"):
             o = None
         elif stream == "mainstream":
             o = gs.Opts(mainstream=True, always_opid=True, max_ops=4, enum_params=False, formats=("byte",), text_binary=False, streaming=False,
@@ -106,6 +136,8 @@ def build_cases(ctx, stream: str, n: int) -> list[dict]:
         doc = gs.gen_spec(r, o) if o is not None else WITNESS_DOC
         if stream == "nullable":
             doc, nplan = nullable_doc(r, first=(i == 0))
+        if stream == "stream-plus":
+            doc = stream_plus_doc(r)
         calls = []
         for path, m, op, pl in opsrig.ops_of(doc):
             base = opsrig.call_plan(r, doc, path, m, op, pl, supply_optional=0.0)
@@ -141,6 +173,11 @@ def build_cases(ctx, stream: str, n: int) -> list[dict]:
                         rp["expect"]["is_object"] = "$ref" in sch and is_objectish(doc, sch)
                         rp["expect"]["items_object"] = sch.get("type") == "array" and "$ref" in (sch.get("items") or {}) and is_objectish(doc, sch["items"])
                     primary = c == primary_code(op["responses"])
+                    pc = primary_code(op["responses"])
+                    if not primary and pc is not None and is_stream_content((op["responses"][pc] or {}).get("content")):
+                        # the method is an async generator (its primary response is streamed): another 2xx response cannot be RETURNED;
+                        # its value is the only item of the stream, a response without content ends the stream (F35 repaired)
+                        rp["expect"] = {"kind": "stream_json", "items": []} if rp["expect"]["kind"] == "none" else {"kind": "stream_once", "item": rp["expect"]}
                     for loc in (opsrig.locate_all(op) if rep == 0 else [{}]):      # first reply: through every tag client's rendering
                       calls.append({**base, **loc, "reply": rp["reply"], "expect_outcome": rp["expect"], "code": c, "primary": primary, "media_type": rp.get("media_type"),
                                   "n_2xx": len(codes2), "op": {"path": path, "method": m, "operationId": op["operationId"]},
@@ -272,7 +309,8 @@ def check(run: Run, ctx) -> None:
     g.run_corr(run, ctx, "vf.corr.loader", "Loader (content keys, stream flag vs Pog.Loader)", quick=0.25, thorough=2.5)
     g.run_oracle(run, ctx, g.Informational(known), "vf.corr.loader", "loader oracle on the real parse_operations (status = declared key, stream flag, parameter order)",
                  {"LOADER-STREAM-FORMAT-ORDER": "-hazard", "LOADER-PROMO-NAME-COLLISION": "-hazard", "LOADER-POST-NAME-OVERWRITE": "-hazard"}, quick=0.3, thorough=3.0)
-    cases = build_cases(ctx, "witness", 1) + build_cases(ctx, "mainstream", ctx.budget(20, 200)) + build_cases(ctx, "wide", ctx.budget(12, 120)) + build_cases(ctx, "nullable", ctx.budget(4, 24))
+    cases = build_cases(ctx, "witness", 1) + build_cases(ctx, "mainstream", ctx.budget(20, 200)) + build_cases(ctx, "wide", ctx.budget(12, 120)) + build_cases(ctx, "nullable", ctx.budget(4, 24)) \
+        + build_cases(ctx, "stream-plus", ctx.budget(4, 24))
     results = e2e.run_cases("vf.props.C05:case_fn", cases)
     for case, res in zip(cases, results):
         evaluate(run, known, case, res)
